@@ -667,9 +667,20 @@ class Engine:
         return outs
 
     # ------------------------------------------------------------------ iteration protocols
+    def consume(self, coll, st):
+        """a value returned by a generator function can be iterated once only: a second traversal (which would silently see nothing in
+        Python) is outside the model"""
+        if getattr(coll, "_one_shot", False) and getattr(coll, "t", None) is not None:
+            key = coll.t.get_id()
+            used = st.ghost.get("consumed_generators", frozenset())
+            if key in used:
+                raise OutOfSubset("a generator object is traversed a second time (it would be exhausted)")
+            st.ghost["consumed_generators"] = used | {key}
+
     def make_iter(self, coll, st, node):
         if isinstance(coll, _IterSpec):
             return coll
+        self.consume(coll, st)
         ty = coll.ty
         if ty == TSpace:
             return _SpaceKeysIter(coll)
